@@ -380,6 +380,7 @@ fn c15_case(rec: &mut Recorder, fmt: &str, abc: &str, data: Vec<u8>, sched: Vec<
     rec.nontrivial(&(fmt.to_string(), abc.to_string(), data.clone()));
     let mut outcomes: Vec<String> = Vec::new();
     let keep = if len <= 400 { json!(data) } else { json!([]) };
+    set_pending(json!({"fmt":fmt,"abc":abc,"len":len,"mut":mname,"sched":sname,"data":keep,"text":String::from_utf8_lossy(&data[..len.min(400)])}).to_string());
     match open(fmt, abc, data, sched) {
         Err(m) => { outcomes.push("panic_in_new".into()); rec.emit(json!({"ev":"rd_fuzz","fmt":fmt,"abc":abc,"len":len,"mut":mname,"sched":sname,"outcomes":outcomes,"msg":m,"data":keep})); return; }
         Ok(mut d) => {
